@@ -212,6 +212,10 @@ class RungeKuttaIntegrator(TableauIntegrator, abc.ABC):
                     self.solver_dict['diff'] = timestep * self.get_error_estimate()
                     self.solver_dict['timestep'] = self.dTime
                     self.solver_dict['dState'] = self.dState
+                    # a rejected attempt must not weigh on the judgement of its retry: the error scale and the
+                    # controller memory it left behind describe a step that was thrown away
+                    for __key in ("system_scaling", "epsilon_last", "epsilon_last_last"):
+                        self.solver_dict.pop(__key, None)
                     timestep, redo_step = self.update_timestep()
                     if self.is_implicit and not self.solver_dict.get("newton_iteration_success"):
                         redo_step = True
